@@ -106,6 +106,9 @@ def make_actions(case, log=None):
                 return ("T", name, value)
             return act
         acts[t] = mkt(t)
+    for t in case.get("term_none", []):
+        # an action whose result is None (parglare.actions.pass_none: drop punctuation) is still an action
+        acts[t] = lambda context, value, *rest: None
     return acts
 
 
@@ -142,6 +145,8 @@ def ref_eval(node, case, helpers, with_actions):
     def ev(n):
         if n.is_term():
             name = n.symbol.name
+            if with_actions and name in case.get("term_none", []):
+                return None
             if with_actions and name in case["term_actions"]:
                 return ("T", name, n.value)
             return n.value
@@ -210,6 +215,8 @@ def run_case(case, ctx):
     info0 = dict(grammar=text_g, actions={r["name"]: r["action"] for r in case["rules"]},
                  terminal_actions=case["term_actions"])
     nonempty = bool(make_actions(case))
+    if case.get("term_none"):
+        ctx.label("terminal action returning None")
 
     def mk(text, with_actions=False):
         g = pgl.Grammar.from_string(text)
@@ -335,7 +342,8 @@ def cases(draw):
         rules.append({"name": n, "alts": alts, "action": draw(st.sampled_from(["none", "one", "list", "list"])),
                       "split": split})
     term_actions = [t for t in terms if draw(st.booleans())]
-    return {"rules": rules, "terms": terms, "term_actions": term_actions, "decoy": draw(st.sampled_from([0, 0, 1, 2, 3, 4])),
+    term_none = [t for t in terms if t not in term_actions and draw(st.integers(0, 3)) == 0]
+    return {"rules": rules, "terms": terms, "term_actions": term_actions, "term_none": term_none, "decoy": draw(st.sampled_from([0, 0, 1, 2, 3, 4])),
             "max_len": 5 if len(terms) <= 2 else 4}
 
 
